@@ -15,6 +15,7 @@ def dispatch (name : String) (lines : List String) : Option (List String) :=
   | "kernels" => some (Sympler.KernelsDrv.driver lines)
   | "dataformat" => some (Sympler.DataFormat.driver lines)
   | "bonds" => some (Sympler.Bonds.driver lines)
+  | "validate" => some (Sympler.Validate.driver lines)
   | "stages" => some (Sympler.Stages.driver lines)
   | _ => none
 
